@@ -49,6 +49,8 @@ fn vx_assert_u16(x: usize) -> (r: u16)
 fn huffman_compress<'x, A>(input: &[u8], buffer: &'x mut ArrayVec<A>) -> (r: Result<&'x [u8], CapacityError>)
     requires (*old(buffer)).wf(), (*old(buffer)).view().len() == 0,
     ensures (*final(buffer)).wf(), r.is_ok() ==> r.unwrap()@ == (*final(buffer)).view(),
+        // C07 (unit huff): the output is the compressed form of the input
+        r.is_ok() ==> r.unwrap()@ == huff_c(input@),
 { unimplemented!() }
 
 // core::result::Result::unwrap_or: no vstd spec in this build (std semantics assumed)
